@@ -4,7 +4,7 @@ From Coq Require Import String List NArith ZArith Bool.
 From J5V.lib Require Import Outcome.
 From J5V.model Require Import ReflectDesc ReflectSchema Reflect ReflectSpec.
 From J5V.gen Require ReflectGen.
-From J5V.proofs Require Import ReflectProofs ExportProofs ReflectInvProofs ReflectPathProofs.
+From J5V.proofs Require Import ReflectProofs ExportProofs ReflectInvProofs ReflectPathProofs ReflectFuelProofs.
 From J5V.model Require Import Export.
 Import ListNotations.
 
@@ -27,6 +27,17 @@ Theorem C18_reflect_total : forall D, wf_total D -> forall fs,
   (forall s, reflect D fs <> Panic s) /\ reflect D fs <> OutOfFuel.
 Proof. exact reflect_total. Qed.
 Print Assumptions C18_reflect_total.
+
+(* "never recurses forever", for EVERY descriptor set and every cache state (no hypothesis): the fuel
+   |messages| + 1 is never exhausted; the recursion is cut by the placeholder registered before a
+   message is built, and checkFlattenCycle's walk is bounded by the entries it has not expanded yet *)
+Theorem C18_reader_never_out_of_fuel : forall D fs, reflect D fs <> OutOfFuel.
+Proof. exact reflect_never_out_of_fuel. Qed.
+Print Assumptions C18_reader_never_out_of_fuel.
+
+Theorem C18_cache_never_out_of_fuel : forall D st m, In m (d_msgs D) -> snd (cache_schema D (size D) st m) <> OutOfFuel.
+Proof. exact cache_schema_never_out_of_fuel. Qed.
+Print Assumptions C18_cache_never_out_of_fuel.
 
 (* SchemaCache.Schema, from any cache state reachable by earlier calls (the invariant [Inv] is
    kept by every call, successful or not): no panic, no fuel exhaustion, no entry removed *)
